@@ -275,7 +275,7 @@ theorem lookup_faithful_v1 (w : World) (hwf : WellFormed w.facts w.v2) (hbt : Bt
 
 /-- the naming half through `walkType` itself, for any facts -/
 theorem walk_files_under_the_right_name (bt : List Builtin) (F : Facts) (v2 : Bool) (hbt : BtKinds bt) (fuel : Nat) (u u' : U)
-    (g o : Nat) (hi : WalkInv.Inv bt u) (hs : SN F v2 u) (hw : walk bt F v2 fuel u g none = some (u', o)) : SN F v2 u' :=
+    (g o : Nat) (hi : WalkInv.Inv bt u) (hs : SN bt F v2 u) (hw : walk bt F v2 fuel u g none = some (u', o)) : SN bt F v2 u' :=
   walk_sn bt F v2 hbt fuel u g none u' o hi hs (fun _ h => by cases h) hw
 
 
